@@ -1024,4 +1024,60 @@ example :
     r.1.consumers = 3 ∧ r.1.rUnf = 0 ∧ addrs r.1 = [69] ∧ nPut 69 0 (outs r) = 2 ∧ nDel 69 0 (outs r) = 2 ∧
     nDel 86 0 (outs r) = 1 ∧ nDel 69 186 (outs r) = 1 := by decide
 
+/-! ### the connection object used again (close(), then connect() on the same object) -/
+
+/-- the default of `AsyncProtocol(consumers_count=...)` (translator) is the statement's three consumers -/
+theorem consumers_default_eq : Gen.consumersCountDefault = 3 := by decide
+
+/-- **`reopen`**: on a connection whose close() has returned and which is down, the finished call is forgotten and
+nothing else changes: producers, consumers, devices, queues, script, clock are the object's state as close() left it -/
+theorem reopen_forgets_close {s : St} (hd : isDone s.closing = true) (hc : s.connected = false) (hm : s.lostMid = false)
+    (hr : s.recon = .idle) : (step s .reopen).1 = { s with closing := .no, rj := false } ∧ (step s .reopen).2 = [] := by
+  simp [step, stepDone, hd, reopenEv, hc, hm, hr]
+
+/-- the session after a reopen is a reachable state with close() not called: EVERY theorem of this file that speaks
+about reachable states (detection, `loss_announced_once`, `one_close_per_loss`, `retry_until_success`, `reestablished`,
+`tasks_bounded`, `consumers_topped_up`, `frames_reach_same_device` ...) holds in it, for every history that follows -/
+theorem session_after_reopen {s : St} (h : Reachable s) (hd : isDone s.closing = true) (hc : s.connected = false)
+    (hm : s.lostMid = false) (hr : s.recon = .idle) :
+    Reachable (step s .reopen).1 ∧ (step s .reopen).1.closing = .no ∧ (step s .reopen).1.rcOn = s.rcOn ∧
+    addrs (step s .reopen).1 = addrs s := by
+  have hre : Reachable (step s .reopen).1 := by have := h.run [.reopen]; simpa [run] using this
+  rw [(reopen_forgets_close hd hc hm hr).1] at hre ⊢
+  exact ⟨hre, rfl, rfl, rfl⟩
+
+/-- **one reconnect per loss, in every later session**: after a reopen, along any run without a further close(), the
+first attempts made by the loss handling equal the transports closed (as `one_reconnect_per_loss` in the first session) -/
+theorem one_reconnect_per_loss_after_reopen {s : St} (h : Reachable s) (hd : isDone s.closing = true)
+    (hc : s.connected = false) (hm : s.lostMid = false) (hr : s.recon = .idle) (hrc : s.rcOn = true)
+    (es : List Ev) (hne : Ev.close ∉ es) :
+    nInvoke (step s .reopen).1 es + pendW (run (step s .reopen).1 es).1 =
+      nWclose (outs (run (step s .reopen).1 es)) + pendW (step s .reopen).1 := by
+  obtain ⟨h1, h2, h3, _⟩ := session_after_reopen h hd hc hm hr
+  exact one_reconnect_per_loss h1 h2 (by rw [h3]; exact hrc) es hne
+
+/-- ... and exactly one transport close per loss -/
+theorem one_close_per_loss_after_reopen {s : St} (h : Reachable s) (hd : isDone s.closing = true)
+    (hc : s.connected = false) (hm : s.lostMid = false) (hr : s.recon = .idle) (es : List Ev) (hne : Ev.close ∉ es) :
+    nFault (outs (run (step s .reopen).1 es)) + pend (step s .reopen).1 =
+      nWclose (outs (run (step s .reopen).1 es)) + pend (run (step s .reopen).1 es).1 := by
+  obtain ⟨h1, h2, _, _⟩ := session_after_reopen h hd hc hm hr
+  exact (one_close_per_loss h1 h2 es hne).1
+
+/-- non-vacuity: first session with a device, close() (returns at once), the object used again, connect(), a frame for
+the same device, the stream breaks, the first attempt fails, the retry after RECONNECT_TIMEOUT succeeds -/
+def exReopenEvs : List Ev :=
+  [.connect, .prodStart, .feed (.pw 69), .take, .close, .shutdownRun]
+
+def exClosed : St := (run (init 3 true [.ok .ok .ok, .ok .ok .ok, .err, .ok .ok .ok]) exReopenEvs).1
+
+example : Reachable exClosed := ⟨3, true, _, exReopenEvs, rfl⟩
+example : isDone exClosed.closing = true ∧ exClosed.connected = false ∧ exClosed.lostMid = false ∧ exClosed.recon = .idle ∧
+    tasks exClosed = 0 ∧ addrs exClosed = [69] := by decide
+example :
+    let r := run exClosed [.reopen, .connect, .prodStart, .feed (.pw 69), .take, .readFault, .lostRun, .lostRun2,
+      .advance 20000, .tick .backoffEnd, .prodStart, .feed (.pw 69), .take]
+    nFault (outs r) = 1 ∧ nWclose (outs r) = 1 ∧ nOpen (outs r) = 3 ∧ r.1.connected = true ∧ addrs r.1 = [69] ∧
+    r.1.producers = 1 ∧ r.1.consumers = 3 ∧ nDel 69 186 (outs r) = 2 ∧ tasks r.1 = 1 + 3 + deviceTasks r.1 := by decide
+
 end PlumVerif.C11
